@@ -4,6 +4,7 @@ import (
 	"fmt"
 	"go/types"
 	"math/big"
+	"strings"
 )
 
 type Kind int
@@ -40,6 +41,12 @@ type Val struct {
 	Elems  []*Val
 	H      *Heap // KAgg: snapshot
 	N      *big.Int
+	// integer-mode idiom tracking
+	Bit      string // value is this {0,1}-valued term
+	MaskOf   string // value is b*(2^W-1) for this {0,1}-valued term b
+	LowZeros int    // value is a multiple of 2^LowZeros
+	NegOrOf  string // value is q | -q for this term q
+	NegOf    string // value is -q (wrapped) for this term q
 }
 
 func (v *Val) String() string {
@@ -94,11 +101,21 @@ func init() {
 	}
 }
 
+// genIntMode: set (under genMu) while generating a VC in integer mode: integer cells hold SMT Ints.
+var genIntMode bool
+
+func compSort(comp string) string {
+	if genIntMode && strings.HasPrefix(comp, "bv") {
+		return "Int"
+	}
+	return compSorts[comp]
+}
+
 func heapSort(comp string) string {
-	return "(Array Int (Array (_ BitVec 64) " + compSorts[comp] + "))"
+	return "(Array Int (Array (_ BitVec 64) " + compSort(comp) + "))"
 }
 func innerSort(comp string) string {
-	return "(Array (_ BitVec 64) " + compSorts[comp] + ")"
+	return "(Array (_ BitVec 64) " + compSort(comp) + ")"
 }
 
 // scalarKind classifies a non-aggregate Go type.
